@@ -244,8 +244,40 @@ def receiver(c):
     c.cover_depth = 14
 
 
+# ===================================================================================== wiring (caller-side obligations)
+def link_and_protocol_layer_wiring(c):
+    """Real USB3LinkLayer (open interfaces): the DataPacketReceiver instance looks at the physical layer's receive stream, and its
+    reports / payload stream / header are the link layer's data_source* outputs; real USB3ProtocolLayer (open link layer): those are
+    handed to the endpoint interface unchanged."""
+    from .c37_header_receive import LinkLayerUnits, lemmas_receive_stream
+    from .c46_ss_in_endpoint import stream_same, record_same, TX_STREAM
+    U = LinkLayerUnits(c)
+    S, d, rx, ts = U.S, U.d, U.data_rx, U.ts
+    lemmas_receive_stream(c, U, [("data_packet_receiver", rx.sink)], clause="For every data packet received: the receiver sees the physical layer's receive stream")
+    c.lemma("link_layer_reports_are_the_receivers", z3.And(S(d.data_source_complete, rx.packet_good), S(d.data_source_invalid, rx.packet_bad)),
+            clause="exactly one of 'packet good' or 'packet bad' is reported: the link layer's data_source_complete / data_source_invalid are "
+                   "the receiver's packet_good / packet_bad")
+    c.lemma("link_layer_payload_stream_and_header_are_the_receivers",
+            z3.And(stream_same(ts, d.data_source, rx.source, TX_STREAM), record_same(ts, d.data_header_from_host, rx.header)),
+            clause="the payload stream carries exactly data-length bytes: data_source (valid, payload, first, last) and data_header_from_host "
+                   "(every field) are the receiver's")
+
+
+def protocol_layer_rx_wiring(c):
+    from .c46_ss_in_endpoint import open_protocol_layer, same, stream_same, record_same, TX_STREAM
+    d, link, ts = open_protocol_layer(c)
+    ep = d.endpoint_interface
+    c.lemma("endpoint_interface_rx_is_link_data_source",
+            z3.And(stream_same(ts, ep.rx, link.data_source, TX_STREAM), record_same(ts, ep.rx_header, link.data_header_from_host),
+                   same(ts, ep.rx_complete, link.data_source_complete), same(ts, ep.rx_invalid, link.data_source_invalid)),
+            clause="reported ... once: the endpoint interface's rx stream, rx_header (every field), rx_complete and rx_invalid are the link layer's")
+    c.cosim_cycles = 16
+
+
 def contracts(tier):
     yield ("DataPacketReceiver", "", receiver)
+    yield ("USB3LinkLayer", "wiring_data_rx", link_and_protocol_layer_wiring)
+    yield ("USB3ProtocolLayer", "wiring_data_rx", protocol_layer_rx_wiring)
 
 
 LEVEL = "proof"
